@@ -7,6 +7,7 @@ The invariant (`SpaceInv`, defined in `Canine/Proofs/StorageD.lean`) holds in th
 is preserved by every message and by the reward block, hence along every history.
 -/
 import Canine.Proofs.StorageD
+import Canine.Proofs.QueryStorage
 namespace Canine.Storage
 
 /-- `SpaceInv` spelled out on the state -/
@@ -306,6 +307,31 @@ theorem C07_space_used_eq (s : State) (hinv : SpaceInv s) (a : String) (pi : Pay
     (hpi : AMap.get s.payinfo a = some pi) :
     pi.spaceUsed = usedBy s a ∧ pi.spaceUsed ≤ pi.spaceAvailable :=
   ⟨(hinv.planOk a pi hpi).2.1, (hinv.planOk a pi hpi).2.2.2⟩
+
+/-- **The space the chain reports as used** (gRPC query server): on every state satisfying the
+invariant (all reachable states), `StoragePaymentInfo` returns the plan record, whose `SpaceUsed`
+is the total footprint of the account's live plan-paid files, and `GetClientFreeSpace` reports the
+purchased space minus exactly that footprint, never a negative number.  (`hav`: the purchased
+space is an int64 field.) -/
+theorem C07_reported_usage_is_the_footprint (s : State) (hinv : SpaceInv s) (now : Int) (a : String)
+    (pi : PayInfo) (hpi : AMap.get s.payinfo a = some pi) (hav : pi.spaceAvailable ≤ I64.maxV) :
+    Query.run s now (.payInfo a) = .payInfo pi ∧ pi.spaceUsed = usedBy s a ∧
+    Query.run s now (.clientFreeSpace a) = .num (pi.spaceAvailable - usedBy s a) ∧
+    0 ≤ pi.spaceAvailable - usedBy s a := by
+  obtain ⟨_, h2, h3, h4⟩ := hinv.planOk a pi hpi
+  obtain ⟨q1, q2, _⟩ := Query.run_payInfo s now a pi hpi
+  have hw : I64.wrap (pi.spaceAvailable - pi.spaceUsed) = pi.spaceAvailable - pi.spaceUsed :=
+    I64.wrap_id (by unfold I64.minV; omega) (by omega)
+  have hu : pi.spaceUsed = usedBy s a := h2
+  refine ⟨q1, hu, ?_, ?_⟩
+  · rw [q2, hw, hu]
+  · rw [← hu]; omega
+
+/-- an account without a plan is reported no space at all -/
+theorem C07_no_plan_reports_nothing (s : State) (now : Int) (a : String) (h : AMap.get s.payinfo a = none) :
+    Query.run s now (.payInfo a) = .err ∧ Query.run s now (.clientFreeSpace a) = .num 0 ∧
+    Query.run s now (.payData a) = .payData (-1) 0 := by
+  simp [Query.run, h]
 
 /-! ### (2) posting without a plan, with an expired plan, or without room fails -/
 
